@@ -18,11 +18,11 @@ inductive DiagKind where
   | expectedStatement | expectedIdentifier | expectedGetAfterIdentifier | expectedLParen
   | expectedRParen | expectedRBracket | expectedStartBlock | unterminatedBlock
   | expectedComparisonOperator | expectedNumberOrVariableOrLParen | trailingTokens
-  | synReservedKeyword | invalidAssignmentTarget
+  | synReservedKeyword | invalidAssignmentTarget | synNestingTooDeep
   -- SemanticError (code "semantic")
   | duplicateIdentifier | assignmentToUndeclared | typeMismatch | undeclaredIdentifier
   | functionCallArity | unreachableCode | unusedAssignment | unusedVariable | unusedFunction
-  | semReservedKeyword
+  | semReservedKeyword | semNestingTooDeep
   -- analysis (code "analysis")
   | analysisLimit
 deriving DecidableEq, Repr, Inhabited
@@ -34,10 +34,10 @@ def DiagKind.code : DiagKind → String
   | .expectedStatement | .expectedIdentifier | .expectedGetAfterIdentifier | .expectedLParen
   | .expectedRParen | .expectedRBracket | .expectedStartBlock | .unterminatedBlock
   | .expectedComparisonOperator | .expectedNumberOrVariableOrLParen | .trailingTokens
-  | .synReservedKeyword | .invalidAssignmentTarget => "syntax"
+  | .synReservedKeyword | .invalidAssignmentTarget | .synNestingTooDeep => "syntax"
   | .duplicateIdentifier | .assignmentToUndeclared | .typeMismatch | .undeclaredIdentifier
   | .functionCallArity | .unreachableCode | .unusedAssignment | .unusedVariable | .unusedFunction
-  | .semReservedKeyword => "semantic"
+  | .semReservedKeyword | .semNestingTooDeep => "semantic"
   | .analysisLimit => "analysis"
 
 /-- The `message` string (`AsStr::as_str`) with `' '`, `','`, `':'` replaced by `'_'`. -/
@@ -60,6 +60,7 @@ def DiagKind.msg : DiagKind → String
   | .trailingTokens => "Unexpected_token"
   | .synReservedKeyword => "Use_of_reserved_keyword"
   | .invalidAssignmentTarget => "Invalid_assignment_target"
+  | .synNestingTooDeep => "Program_nest_too_deep"
   | .duplicateIdentifier => "Duplicate_identifier"
   | .assignmentToUndeclared => "Assignment_to_undeclared_variable"
   | .typeMismatch => "Type_mismatch"
@@ -70,6 +71,7 @@ def DiagKind.msg : DiagKind → String
   | .unusedVariable => "Unused_variable"
   | .unusedFunction => "Unused_function"
   | .semReservedKeyword => "Use_of_reserved_keyword"
+  | .semNestingTooDeep => "Program_nest_too_deep"
   | .analysisLimit => "Analysis_skipped_after_reaching_a_configured_resource_limit"
 
 structure Diag where
